@@ -106,8 +106,10 @@ def merge(results):
     notes = {}
     trip = []
     errors = []
+    lines = set()
     for sh in sorted(results):
         r = results[sh]
+        lines.update((b, l) for b, q, l in r.get("lines", []))
         evaluations += r["evaluations"]
         counters.update(r["counters"])
         hashes.update(r["hashes"])
@@ -123,7 +125,38 @@ def merge(results):
         if r.get("status") != "ok":
             errors.append("shard %d: %s" % (sh, r.get("error")))
     return dict(counters=counters, hashes=hashes, samples=samples, violations=violations,
-                buckets=buckets, evaluations=evaluations, notes=notes, tripwire=trip, errors=errors)
+                buckets=buckets, evaluations=evaluations, notes=notes, tripwire=trip, errors=errors, lines=lines)
+
+
+def code_reached(prop, lines):
+    """Which statements of the files the property is anchored in were executed while the monitors were watching
+    (LINE events of sys.monitoring in every worker and forked child).  Reported, never used for the verdict."""
+    from vf.obs.monitor import statement_map
+    files = None
+    try:
+        with open(os.path.join(VERIF_DIR, "properties.jsonl")) as f:
+            for ln in f:
+                d = json.loads(ln)
+                if d["id"] == prop:
+                    files = [os.path.basename(x) for x in d["anchors"]["files"] if x.endswith(".py")]
+    except Exception:
+        pass
+    smap = statement_map()
+    out = {}
+    for base in sorted(smap):
+        hit = {l for b, l in lines if b == base}
+        if not hit or (files is not None and base not in files):
+            continue
+        funcs = smap[base]
+        total = sum(len(v) for v in funcs.values())
+        reached = sum(len(v & hit) for v in funcs.values())
+        entered = {q: v for q, v in funcs.items() if v & hit}
+        partial = {q: sorted(v - hit) for q, v in sorted(entered.items()) if v - hit}
+        out[base] = {"statements_in_functions": total, "reached": reached,
+                     "functions_entered": len(entered), "functions_total": len(funcs),
+                     "functions_never_entered": sorted(q for q, v in funcs.items() if v and not (v & hit)),
+                     "unreached_lines_in_entered_functions": partial}
+    return out
 
 
 def write_evidence(mod, prop, tier, seed, m, wall, nviol, extra):
@@ -139,6 +172,7 @@ def write_evidence(mod, prop, tier, seed, m, wall, nviol, extra):
         "known_findings_hit": extra.get("known_hit", []),
         "verdict": extra.get("verdict"),
         "notes": m["notes"],
+        "code_reached": code_reached(prop, m.get("lines", set())),
         "exhaustive": False,
     }
     if getattr(mod, "EXHAUSTIVE_NOTE", None):
